@@ -122,14 +122,27 @@ def quorumOf (cfg : Cfg) : Nat := getQuorumValue cfg.quorum
 /-- `responded_peers >= expected_answers` (operator regenerated from the source). -/
 def reached (n q : Nat) : Bool := if thresholdIsGe then decide (q ≤ n) else decide (q < n)
 
-/-- `GetRecordCfg::does_target_match`. With `is_register` only base register and ops are compared. -/
+/-- the comparison of the two registers' op sets used by `does_target_match` (regenerated from the source;
+ops lists are ascending and duplicate-free, so list equality is set equality) -/
+def opsMatch (target fetched : List Nat) : Bool :=
+  match regTargetOpsCmp with
+  | .eq => target == fetched
+  | .targetSubsetOfFetched => target.all (fun o => fetched.contains o)
+  | .fetchedSubsetOfTarget => fetched.all (fun o => target.contains o)
+
+/-- `GetRecordCfg::does_target_match`, literally:
+* no target: matches;
+* `is_register`: both the fetched and the target record must deserialise as `SignedRegister` (anything else,
+  even byte-identical records, does not match); then base registers equal and ops compared by `opsMatch`
+  (the owner signature of the register is *not* compared);
+* otherwise: the records are equal. -/
 def targetMatch (cfg : Cfg) (c : Content) : Bool :=
   match cfg.target with
   | none => true
   | some t =>
     if cfg.isReg then
       match c, t with
-      | .reg b _ ops, .reg b' _ ops' => b == b' && ops == ops'
+      | .reg b _ ops, .reg b' _ ops' => b == b' && opsMatch ops' ops
       | _, _ => false
     else c == t
 
